@@ -658,3 +658,21 @@ mod tests {
         }
     }
 }
+
+/// Read-only access to private constants for the external verification harness.
+#[cfg(alpenglow_verif)]
+pub mod verif_hooks {
+    use super::{EMPTY_ROOTS, Hash, LEAF_LABEL, LEFT_LABEL, RIGHT_LABEL};
+
+    /// Returns the (leaf, left, right) domain-separation labels.
+    #[must_use]
+    pub fn labels() -> ([u8; 32], [u8; 32], [u8; 32]) {
+        (LEAF_LABEL, LEFT_LABEL, RIGHT_LABEL)
+    }
+
+    /// Returns the table of canonical empty-subtree roots.
+    #[must_use]
+    pub fn empty_roots() -> Vec<Hash> {
+        EMPTY_ROOTS.to_vec()
+    }
+}
